@@ -100,6 +100,15 @@ def run(case, ctx, rng):
                 if cb is not None:
                     ctx.eq('dec(enc(B))==B', call(obj.dec, cb), B, block='ciphertext given as Bits', **det)
                     ctx.eq('dec(enc(B))==B', (cb.ival, cb.size), (Bits(e, bitorder=bo).ival, 8 * len(e)), block='the caller\'s Bits block is left unchanged by dec', **det)
+        if not is_exc(e) and case['bp'] == 'rand':
+            # copies of the object (shallow, deep, pickled -- whichever it supports) are the same permutation pair, and the original stays one
+            import copy, pickle
+            for nm, f in (('copy.copy', copy.copy), ('copy.deepcopy', copy.deepcopy), ('pickle round trip', lambda x: pickle.loads(pickle.dumps(x)))):
+                oc = call(f, obj)
+                if is_exc(oc):
+                    continue
+                ctx.eq('dec(enc(B))==B', call(oc.dec, e), B, copy_made_by=nm, direction='the copy decrypts what the original encrypted', **det)
+                ctx.eq('dec(enc(B))==B', call(lambda: obj.dec(oc.enc(B))), B, copy_made_by=nm, direction='the original decrypts what the copy encrypted', **det)
         # a second object with the same key inverts the first (no per-object state in the inverse)
         if not is_exc(e):
             ctx.eq('dec(enc(B))==B', call(lambda: c02.build(c, K, T, kbits).dec(e)), B, fresh_object=True, **det)
